@@ -319,9 +319,10 @@ class Engine:
         if obl.no_heap:
             cmd += ["-DVK_NO_HEAP=1"]
         cmd += [f"-DLL2C_MAXCPY={obl.maxcpy}"]
-        if obl.backend == "cadical":
+        backend = obl.backend or os.environ.get("VERIF_BACKEND", "minisat")
+        if backend == "cadical":
             cmd += ["--sat-solver", "cadical"]
-        elif obl.backend == "kissat":
+        elif backend == "kissat":
             cmd += ["--external-sat-solver", "kissat"]
         cmd += list(obl.extra_flags)
         res.cmd = " ".join(cmd).replace(self.work, "$WORK")
@@ -384,7 +385,7 @@ class Engine:
             return
         res.nprops = len(results)
         other = [r for r in results if r.get("status") not in ("SUCCESS", "FAILURE")]
-        if other:
+        if other and not any(r.get("status") == "FAILURE" and not r.get("description", "").startswith("WITNESS:") for r in results):
             res.status, res.detail = "undecided", f"cbmc left {len(other)} propert(ies) undecided ({other[0].get('status')}); out of memory / solver error"
             return
         fails, wit = [], None
@@ -477,8 +478,15 @@ class Engine:
                 outs[mode] = {"rc": -2, "out": "timeout"}
         real = outs.get("replay", {})
         gen = outs.get("tvgen", {})
-        if real.get("rc") == 1 and "CHECK-FAIL" in real.get("out", ""):
+        cb = set(d.get("description", "")[6:] for d in res.failed_props if d.get("description", "").startswith("PROP: "))
+        cb |= set(d.get("description", "") for d in res.failed_props if d.get("description", "").startswith("NORETURN"))
+        nat = set(re.findall(r"CHECK-FAIL: (.*)", real.get("out", "")))
+        if real.get("rc") == 1 and "CHECK-FAIL" in real.get("out", "") and (cb & nat or not cb):
             verdict = "reproduced"
+        elif real.get("rc") == 1 and "CHECK-FAIL" in real.get("out", ""):
+            # the real code fails a DIFFERENT assertion than the one the solver refuted: the encoding (or a stub) and
+            # the real code disagree on this input -> machinery problem, not a verdict
+            verdict = "not-reproduced"
         elif real.get("rc") == 0:
             verdict = "not-reproduced"
         elif real.get("rc") is not None and real.get("rc") < -2 or real.get("rc") in (134, 139):
